@@ -29,6 +29,8 @@ type groupModel struct {
 	onPlan   func(mg *mgroup, rec *genRecord)
 	onIssued func(client, member string, gen int32)
 	onFenced func(client string, c *simConn, corr int32)
+	onIssuedAt func(client, member string, c *simConn, corr int32)
+	onVoided   func(client string) // a fault answered a group request with a code that makes the client drop its member id
 	onOffsetFetch func(client, key string, off int64)
 }
 
